@@ -64,6 +64,8 @@ pub struct GenOpts {
   pub choice_from_named_group: bool,
   /// a generic parameter used inside the argument list of another instantiation (`a<T> = b<T>`)
   pub generic_param_forwarding: bool,
+  /// .iregexp / .pcre next to .regexp over the same pattern pool (C14: results must not depend on other calls)
+  pub text_ctl_variants: bool,
 }
 
 impl Default for GenOpts {
@@ -103,6 +105,7 @@ impl Default for GenOpts {
       generic_recursion: true,
       choice_from_named_group: true,
       generic_param_forwarding: true,
+      text_ctl_variants: false,
     }
   }
 }
@@ -533,7 +536,8 @@ impl<'a, 'b, 'o> SemGen<'a, 'b, 'o> {
       2 => Ty1::plain(name_ty2(*self.t.pick(&["$sock", "$other"]))),
       3 => {
         let re = *self.t.pick(&["[a-z]+", "a.c", "[0-9]{2,3}", "(ab)*", "caf.", "^x"]);
-        Ty1 { t2: name_ty2(*self.t.pick(&["tstr", "text"])), op: Some((Op::Ctl("regexp".into()), Ty2::Lit(Lit::text(re)))) }
+        let ctl = if self.o.text_ctl_variants { *self.t.pick(&["regexp", "iregexp", "pcre", "regexp"]) } else { "regexp" };
+        Ty1 { t2: name_ty2(*self.t.pick(&["tstr", "text"])), op: Some((Op::Ctl(ctl.into()), Ty2::Lit(Lit::text(re)))) }
       }
       4 => {
         let (t, c) = match self.t.below(3) {
